@@ -457,6 +457,89 @@ def _builder_cases(args):
     return out
 
 
+def _copy_cases(args):
+    """basis.copy(new_dof) carries every parameter (the translation-invariant builder and add_auxiliary_space build their
+    basis sets through copy()), and a translation-invariant model over cells with a displaced oscillator equals the
+    sum over cells assembled from the prototype's own matrices."""
+    bootstrap()
+    from renormalizer.model import TI1DModel, Op, basis as ba
+    from renormalizer.mps import Mpo
+    seed, k = args
+    out = {"cases": [], "viol": []}
+    rng = rng_for(seed, "c16-copy", k)
+    protos = [(ba.BasisSHO("v", float(rng.uniform(0.5, 1.5)), 3 + k % 2, x0=float(rng.uniform(0.2, 0.7)), dvr=False), ["x", "x^2", "p^2", r"b^\dagger b", "x p"]),
+              (ba.BasisSHO("v", float(rng.uniform(0.5, 1.5)), 4, x0=float(rng.uniform(-0.7, -0.2)), dvr=True), ["x", "x^2", "p^2"]),
+              (ba.BasisSHO("v", 0.9, 3, general_xp_power=True), ["x^3", "p^2"]),
+              (ba.BasisSineDVR("q", 5, float(rng.uniform(-1.0, 0.0)), float(rng.uniform(1.0, 3.0))), ["x", "x^2", "dx", "p^2"]),
+              (ba.BasisHalfSpin("s", [0, 0]), ["sigma_x", "sigma_z", "sigma_+"]),
+              (ba.BasisHalfSpin("s", [1, -1]), ["sigma_z"]),
+              (ba.BasisSimpleElectron("e"), [r"a^\dagger a", "a"]),
+              (ba.BasisMultiElectron(["a", "b", "c"], [0, 1, 1]), [r"a^\dagger a"]),
+              (ba.BasisMultiElectronVac(["a", "b"]), [r"a^\dagger a"])]
+    for b, syms in protos:
+        name = type(b).__name__
+        try:
+            new_dof = [("copy", d) for d in b.dofs] if len(b.dofs) > 1 else ("copy", b.dofs[0])
+            c = b.copy(new_dof)
+            out["cases"].append(f"copy/{name}/{k}")
+            if c.nbas != b.nbas or not np.array_equal(np.asarray(c.sigmaqn), np.asarray(b.sigmaqn)):
+                out["viol"].append((f"C16:copy:{name}:shape", f"copy() has nbas {c.nbas} / sigmaqn {np.asarray(c.sigmaqn).tolist()}, original {b.nbas} / {np.asarray(b.sigmaqn).tolist()}", {"basis": name}))
+                continue
+            for sy in syms:
+                d0, d1 = b.dofs[0], c.dofs[0]
+                if name.startswith("BasisMultiElectron"):
+                    m0 = b.op_mat(Op(sy, [b.dofs[1], b.dofs[1]]))
+                    m1 = c.op_mat(Op(sy, [c.dofs[1], c.dofs[1]]))
+                else:
+                    nsym = len(sy.split())
+                    m0 = b.op_mat(Op(sy, [d0] * nsym if nsym > 1 else d0))
+                    m1 = c.op_mat(Op(sy, [d1] * nsym if nsym > 1 else d1))
+                if np.linalg.norm(np.asarray(m0) - np.asarray(m1)) > 1e-13 * (1 + np.linalg.norm(m0)):
+                    out["viol"].append((f"C16:copy:{name}:op_mat", f"op_mat('{sy}') of the copy differs from the original by {np.linalg.norm(np.asarray(m0) - np.asarray(m1)):.2e}", {"basis": name, "symbol": sy}))
+                    break
+        except Exception as e:
+            out["viol"].append((f"C16:copy:{name}:raises:{type(e).__name__}", f"{type(e).__name__}: {e}", {"basis": name}))
+    # translation-invariant model whose cell holds a displaced oscillator
+    for ncell in (2, 3):
+        try:
+            sho = ba.BasisSHO("v", float(rng.uniform(0.6, 1.4)), 3, x0=float(rng.uniform(0.3, 0.8)))
+            spin = ba.BasisHalfSpin("s")
+            cell = [spin, sho]
+            w, g, j = float(rng.uniform(0.5, 1.5)), float(rng.uniform(0.2, 0.8)), float(rng.uniform(0.2, 0.8))
+            local = [Op("sigma_z", "s", w), Op("x^2", "v", 0.5), Op("sigma_z x", ["s", "v"], g)]
+            nonlocal_terms = [Op("x x", [(0, "v"), (1, "v")], j)]
+            model = TI1DModel(cell, local, nonlocal_terms, ncell)
+            out["cases"].append(f"ti-displaced/{ncell}/{k}")
+            order = [bb.dof for bb in model.basis]
+            dims = [bb.nbas for bb in model.basis]
+            mats = {"sigma_z": np.asarray(spin.op_mat(Op("sigma_z", "s"))), "x": np.asarray(sho.op_mat(Op("x", "v"))), "x^2": np.asarray(sho.op_mat(Op("x^2", "v")))}
+
+            def pos(cell_i, which):
+                cands = [i for i, d in enumerate(order) if str(cell_i) in str(d) and which in str(d)]
+                if len(cands) != 1:
+                    raise KeyError((cell_i, which, order))
+                return cands[0]
+
+            def emb(pairs):
+                full = [np.eye(d) for d in dims]
+                for p_, m_ in pairs:
+                    full[p_] = full[p_] @ m_
+                o = np.eye(1)
+                for m_ in full:
+                    o = np.kron(o, m_)
+                return o
+            H = np.zeros((int(np.prod(dims)),) * 2)
+            for i in range(ncell):
+                H += w * emb([(pos(i, "s"), mats["sigma_z"])]) + 0.5 * emb([(pos(i, "v"), mats["x^2"])]) + g * emb([(pos(i, "s"), mats["sigma_z"]), (pos(i, "v"), mats["x"])])
+                H += j * emb([(pos(i, "v"), mats["x"]), (pos((i + 1) % ncell, "v"), mats["x"])])
+            got = np.asarray(Mpo(model).todense())
+            if np.linalg.norm(got - H) > 1e-10 * (np.linalg.norm(H) + 1):
+                out["viol"].append(("C16:ti:displaced-oscillator", f"translation-invariant Hamiltonian over cells with a displaced oscillator differs from the sum over cells by {np.linalg.norm(got - H):.2e}", {"ncell": ncell, "order": [str(d) for d in order]}))
+        except Exception as e:
+            out["viol"].append((f"C16:ti:displaced-raises:{type(e).__name__}", f"{type(e).__name__}: {e}", {"ncell": ncell}))
+    return out
+
+
 def run(ctx):
     big = ctx.tier != "quick"
     cfg = tlc.make_cfg(constants=dict(MaxMol=3, MaxModes=2, MaxCell=4 if not big else 5, MaxOff=4 if not big else 6), spec="Spec",
@@ -471,6 +554,7 @@ def run(ctx):
     results += pmap(_sho_cases, [(ctx.seed, k) for k in range(8)], chunksize=1)
     results += pmap(_sine_cases, [(ctx.seed, k) for k in range(4)], chunksize=1)
     results += pmap(_spin_electron_cases, [0], chunksize=1)
+    results += pmap(_copy_cases, [(ctx.seed, k) for k in range(2 if not big else 6)], chunksize=1)
     n = 16
     results += pmap(_builder_cases, [(cases[i::n], ctx.seed) for i in range(n) if cases[i::n]], chunksize=1)
     for st, o in results:
